@@ -82,6 +82,7 @@ Inductive instr : Set :=
 | IConv (k : conv) (from to : irty)
 | ICall (params args : list irty)  (* non-primitive classes are passed by pointer to the class's struct *)
 | IPhi (x y : irty)
+| ISelect (c x y : irty)     (* select <c> %cond, <x> a, <y> b : both value types are printed, also for constants *)
 | ICondBr (x : irty)
 | IStore (v slot : irty)     (* store <v> %val, <slot>* %p *)
 | ILoad (t p : irty)         (* load <t>, <p>* %p *)
@@ -128,6 +129,7 @@ Definition judge_instr (i : instr) : judge :=
   | IConv k f t => judge_conv k f t
   | ICall ps as_ => ill_unless (all_eq ps as_)
   | IPhi x y => ill_unless (irty_eqb x y)
+  | ISelect c x y => ill_unless (irty_eqb c i1 && irty_eqb x y)
   | ICondBr x => ill_unless (irty_eqb x i1)
   | IStore v s => if irty_eqb v s then Good else Panic
   | ILoad t p => ill_unless (irty_eqb t p)
@@ -143,11 +145,15 @@ Definition bind (r : lres) (k : irty -> irty -> list instr -> lres) : lres :=
   match r with Err => Err | Ok d v c => k d v c end.
 
 (* ---- ir_helper.go ---------------------------------------------------------------------------- *)
+(* the saturating conversions are calls of declared intrinsics (compiler.go setup): (parameter types, result type) *)
+Definition fptosi_sat : list irty * irty := ([f64], i64).     (* @llvm.fptosi.sat.i64.f64 *)
+Definition fptoui_sat : list irty * irty := ([f64], i8).      (* @llvm.fptoui.sat.i8.f64 *)
+
 (* the helpers switch on the DECLARED type `from` and convert the VALUE (LLVM type v) *)
 Definition float_or_byte_as_int (v from : irty) : option (irty * list instr) :=
   match from with
   | Sc I64 => Some (v, [])
-  | Sc F64 => Some (i64, [IConv FPToSI v i64])
+  | Sc F64 => Some (snd fptosi_sat, [ICall (fst fptosi_sat) [v]])
   | Sc I8 => Some (i64, [IConv ZExt v i64])
   | _ => None
   end.
@@ -161,7 +167,7 @@ Definition int_or_byte_as_float (v from : irty) : option (irty * list instr) :=
 Definition int_or_float_as_byte (v from : irty) : option (irty * list instr) :=
   match from with
   | Sc I64 => Some (i8, [IConv Trunc v i8])
-  | Sc F64 => Some (i8, [IConv FPToUI v i8])
+  | Sc F64 => Some (snd fptoui_sat, [ICall (fst fptoui_sat) [v]])
   | Sc I8 => Some (v, [])
   | _ => None
   end.
@@ -352,15 +358,20 @@ Definition lower_binop (op : binop) (l r : irty) : lres :=
            | _, _ => Err
            end
   | BIN_MOD =>
-      if irty_eqb l i8 && irty_eqb r i8 then Ok i8 i8 [IBin l r]
+      (* divisor = 0 -> runtime error; Byte with Byte: urem; otherwise widened, divisor -1 replaced by 1, srem *)
+      if irty_eqb l i8 && irty_eqb r i8 then Ok i8 i8 [ICmpC r; ICondBr i1; IBin l r]
       else match foba l, foba r with
-           | Some (li, cl), Some (ri, cr) => Ok i64 i64 (cl ++ cr ++ [IBin li ri])
+           | Some (li, cl), Some (ri, cr) =>
+               Ok i64 i64 (cl ++ cr ++ [ICmpC ri; ICondBr i1; ICmpC ri; ISelect i1 i64 ri; IBin li i64])
            | _, _ => Err
            end
   | BIN_LEFT_SHIFT | BIN_RIGHT_SHIFT =>
       (* the count is cast to the type of the shifted value: numericCast(rhs, rhsTyp, lhsTyp) *)
+      (* shl/lshr, then `select (icmp ult count, width), shifted, 0` with an i8 zero for a Byte and an i64 zero otherwise *)
       match numeric_cast r r l with
-      | Some (rv, c) => Ok l l (c ++ [IBin l rv])
+      | Some (rv, c) =>
+          let no_bits := if irty_eqb l i8 then i8 else i64 in
+          Ok l l (c ++ [IBin l rv; ICmpC rv; ISelect i1 l no_bits])
       | None => Err
       end
   | BIN_EQUAL => Ok i1 i1 (compare_values l r)
